@@ -25,10 +25,15 @@
    the task's next step (RequestAbort/PlanHalt instead of FailedPause) is only shown by the oracle, and "every cleanup
    block entered exactly once" on the generator level (C20-C22 have the generator semantics).
    The window opened by clear_checkpoint ends at the next EXPLICIT
-   checkpoint (repaired defect C09-a, fixes/C09-a.diff); implicit checkpoints (stage, close_run, ...) do not end it. *)
+   checkpoint (repaired defect C09-a, fixes/C09-a.diff); implicit checkpoints (stage, close_run, ...) do not end it.
+   Repaired defect C10-a (fixes/C10-a.diff; Engine/RE.v models the REPAIRED code): a 'pause' MESSAGE processed inside
+   the plan's task while no checkpoint is in effect no longer cancels its own task -- the cancellation used to stay
+   pending and hit the plan's clean-up as a RequestAbort nobody had requested.
+   [C10_pause_message_without_checkpoint_keeps_task] (step level, Proofs/RE_C10a.v) and [C10_a_cleanup_runs] (recorded
+   real run of the repaired code: both clean-up messages are executed, only FailedPause is ever thrown). *)
 From Coq Require Import List.
 From BV Require Import Engine.RE Engine.REInst Proofs.RE_Ctl Proofs.RE_Replay Proofs.RE_CtlExamples Proofs.RE_Hold Proofs.RE_DocsCor
-  Proofs.RE_C10 Proofs.RE_C10Ex.
+  Proofs.RE_C10 Proofs.RE_C10Ex Proofs.RE_C10a.
 Import ListNotations.
 
 Theorem C10_paused_only_when_resumable :
@@ -92,6 +97,44 @@ Theorem C10_suspend_request_without_checkpoint_aborts :
     cache P D s' = None.
 Proof. exact suspend_request_without_checkpoint_aborts. Qed.
 Print Assumptions C10_suspend_request_without_checkpoint_aborts.
+
+(* repaired defect C10-a: a 'pause' message (not deferred) executed where the engine may pause and no checkpoint is in
+   effect leaves the task's pending-cancellation flag, the stacks, the stash and the pc as they were; the engine is
+   pausing and interrupted, so the next turn of the loop ([C10_failed_pause_at_top_of_loop]) throws FailedPause and
+   nothing else is pending *)
+Theorem C10_pause_message_without_checkpoint_keeps_task :
+  forall (P D : Type) (dev : D -> nat -> devmeth -> D * devres) (s : st P D) (m : msg) (s' : st P D) (c : cres) (o : list obs),
+    mcmd m = CPause false -> cache P D s = None -> allowed (state P D s) Pausing = true ->
+    exec_cmd P D dev s m = (s', c, o) ->
+    must_cancel P D s' = must_cancel P D s /\
+    state P D s' = Pausing /\ interrupted P D s' = true /\ cache P D s' = None /\
+    pc P D s' = pc P D s /\ permit P D s' = permit P D s /\ stashed P D s' = stashed P D s /\
+    plans P D s' = plans P D s /\ resps P D s' = resps P D s /\
+    (exists r, c = Done r) /\
+    (exists o2, o = OState (state P D s) Pausing :: o2).
+Proof. exact pause_message_without_checkpoint_keeps_task. Qed.
+Print Assumptions C10_pause_message_without_checkpoint_keeps_task.
+
+Example C10_pause_message_without_checkpoint_nonvacuous :
+  let s := fst (run TP (t_resume ex_c10a_tapes) t_plan_of nat (t_dev ex_c10a_ledger) (init TP nat 0 ex_c10a_paus ex_c10a_stag ex_c10a_rec) (firstn 5 ex_c10a_evs)) in
+  cache TP nat s = None /\ allowed (state TP nat s) Pausing = true /\ must_cancel TP nat s = false /\
+  let s' := fst (run TP (t_resume ex_c10a_tapes) t_plan_of nat (t_dev ex_c10a_ledger) s [EvTask]) in
+  state TP nat s' = Aborting /\ must_cancel TP nat s' = false /\ stashed TP nat s' = None /\ pc TP nat s' = PcSleep0.
+Proof. exact c10a_step_nonvacuous. Qed.
+
+(* the witness of C10-a replayed: recorded real run (repaired code) of  try: open_run; clear_checkpoint; pause
+   finally: null (3); null (4).  The model reproduces it; both clean-up messages are executed and FailedPause is the
+   only exception ever thrown into the plan (the unrepaired code threw RequestAbort after message 3). *)
+Example C10_a_cleanup_runs :
+  check ex_c10a_tapes ex_c10a_ledger ex_c10a_paus ex_c10a_stag ex_c10a_rec ex_c10a_evs ex_c10a_obs = true /\
+  let o := model_obs ex_c10a_tapes ex_c10a_ledger ex_c10a_paus ex_c10a_stag ex_c10a_rec ex_c10a_evs in
+  no_bad o = true /\ never_paused_b o = true /\
+  thrown_of o = [EFailedPause] /\
+  has_o (OMsg {| mid := Some 3; mcmd := CNull; mobj := None; mrun := 0 |}) o = true /\
+  has_o (OMsg {| mid := Some 4; mcmd := CNull; mobj := None; mrun := 0 |}) o = true /\
+  has_o (ODoc (DStop 0 XAbort RsEmpty [])) o = true /\
+  has_o (OOut OutInterrupted Idle false false) o = true.
+Proof. exact c10a_cleanup_runs. Qed.
 
 (* the end-to-end statement as first written: FALSE ([C10_full_refuted] below); the proved one is [C10_end_to_end] *)
 Definition C10_full : Prop :=
